@@ -1189,7 +1189,19 @@ func (d *Ledger) actESDTBurn() {
 		return
 	}
 	h := hs[d.R.Intn(len(hs))]
+	if d.chance(35) {
+		// a burn sent by a CONTRACT takes its own path through the function (the burn is forwarded to the system contract)
+		for _, x := range hs {
+			if d.W.Info(x.acct).Kind == "sc" {
+				h = x
+				break
+			}
+		}
+	}
 	c := d.call("ESDTBurn", h.acct, "esdtsc", h.tok, d.amt(d.someAmount(d.q(h.val))))
+	if d.W.Info(h.acct).Kind == "sc" && d.chance(40) {
+		c.Args[1] = append([]byte{0, 0}, c.Args[1]...) // non-minimal encoding of the amount
+	}
 	if d.chance(5) {
 		c.Rcpt = d.W.Addr(d.otherAcct(h.acct))
 	}
